@@ -562,11 +562,16 @@ Parse ==                                        \* protocol.handle() up to its t
                        /\ pc' = "write" /\ exc' = exc
                /\ UNCHANGED sel
          [] r.special \in {"input10", "input30"} ->
-               \* a redirect target over the <META> limit: the request was over the protocol's limit itself (59)
+               \* GemLongRedirect: the redirect of the search dialogue echoes selector and query whatever their length; for a
+               \* request that is itself over the protocol's limit the <META> comes out over 1024 bytes (as coded).  The
+               \* repaired step would refuse such a request (59) - not taken: gemini.py is permissive about over-long requests
+               \* on purpose and the other protocols deliver such search strings (C06).
+               /\ SetSite(IF r.special = "input30" /\ ByteLen(r.aux) > MetaMax THEN "GemLongRedirect" ELSE "none")
                /\ todo' = Wrs("outside", <<Txt(IF r.special = "input10" THEN "10 Enter input" \o CRLF
-                                                ELSE IF ByteLen(r.aux) > MetaMax THEN "59 Bad request" \o CRLF
+                                                ELSE IF ByteLen(r.aux) > MetaMax /\ "GemLongRedirect" \notin Defects
+                                                     THEN "59 Bad request" \o CRLF
                                                 ELSE "30 " \o r.aux \o CRLF)>>)
-               /\ kind' = "status" /\ pc' = "write" /\ UNCHANGED <<sel, exc, site>>
+               /\ kind' = "status" /\ pc' = "write" /\ UNCHANGED <<sel, exc>>
          [] r.special = "icon" ->
                /\ todo' = Wrs("outside", <<Txt("HTTP/1.0 200 OK" \o CRLF), Txt("Last-Modified: TS" \o CRLF),
                                            Txt("Content-Type: image/gif" \o CRLF \o CRLF)>>
